@@ -379,8 +379,9 @@ def run_impl(sc, spec, env=None, timeout=60, crash=None, yield_seed=None, binary
     if os.path.exists(hooks):
         for ln in open(hooks).read().splitlines():
             t = ln.split(" ")
-            if len(t) >= 3:
-                res["hooks"].append((int(t[0]), t[1], int(t[2]), t[3:]))
+            if len(t) >= 4 and t[3].startswith("g"):
+                # (timestamp ns, point, n-th hit of the point, keys, goroutine id)
+                res["hooks"].append((int(t[0]), t[1], int(t[2]), t[4:], int(t[3][1:])))
     try:
         res["log_tail"] = open(os.path.join(sc.work, "wfrun.log"), errors="replace").read()[-700:]
     except OSError:
@@ -591,7 +592,7 @@ def hook_points(spec, prefixes=("exec.", "fin.", "run.", "wf.", "ct."), sample_o
     try:
         sc.plant(spec.files)
         impl = run_impl(sc, spec)
-        pts = [(name, n) for ts, name, n, keys in impl["hooks"]]
+        pts = [(name, n) for ts, name, n, keys, gid in impl["hooks"]]
         main = [p for p in pts if p[0].startswith(prefixes)]
         others = [p for p in pts if not p[0].startswith(prefixes)]
         if sample_others and others and rng:
